@@ -6,10 +6,17 @@
    two timer callbacks are the pure decisions t1_decide / wd_decide on the integer uptime seconds.  The bounds are proved
    for those decisions:
    * keep-alive over the abstract timed semantics of C05/Model.v (events Tick/Sent/Resp stamped with the uptime second),
-     under the environment hypotheses collected in [kenv_ok]: time monotone, a timer1 tick at least every other second
-     (1 s period, lateness < 1 s), a queued ping accepted by the link within the next second and before the next tick
-     (healthy link), every ping answered no later than the second after it was queued (prompt server), and H_slot: a free
-     out-queue slot at the ticks where an idle time has reached T-2.  Local traffic is arbitrary ([Sent] at any time).
+     under [kenv_ok] = [kder_ok] && [kext_ok].  kder_ok (time monotone, 32-bit seconds, a timer1 tick at least every other
+     second) is DERIVED for the automaton in C05/Sim.v from its timers (1 s period, lateness J < 1 s); kext_ok is what is
+     external: H_link (a queued ping accepted by the link within the next second and before the next tick), H_prompt (every
+     ping answered no later than the second after it was queued), H_slot (a free out-queue slot at the ticks where an idle
+     time has reached T-2; complement of the known finding), and H_fresh at the start of an episode (something was sent in
+     the last T-3 s).  Local traffic is arbitrary ([Sent] at any time).  [C05_keepalive_automaton] has only these left.
+   * the granted timeout T is whatever byte the last register result / set-activity-timeout result carried (no clamp in the
+     device, min/max ignored): KA_MIN = 5 <= T for the keep-alive invariant, T <= KA_WD_MAX = 58 for the watchdog clause;
+     T = 0, 0 < T < 5 and T > 58 are characterised separately (the last one is refuted by a witness).
+   * counter wraps: uptime.c makes the 32-bit microsecond counter a 64-bit time (cycles * 0xffffffff + low word).  All bounds
+     hold across any number of wraps W of the counter, at the price of W microseconds; uptime seconds must fit 32 bits.
    * silent server: the decisions themselves plus the arithmetic of seconds; the bound "tau + T + 11 s" is: the uptime
      second reaches lr + T + 10 at most (T+10) s after tau ([C05_seconds_elapsed]), the next timer1 tick follows within one
      period (1 s + lateness), and that tick reconnects ([C05_silent_server_reconnect]); likewise 60+1+1 s for the watchdog. *)
@@ -40,17 +47,48 @@ Theorem C05_watchdog_is_decide : forall s,
 Proof. exact watchdog_cb_decide. Qed.
 Print Assumptions C05_watchdog_is_decide.
 
-(* registered, 10 <= T <= 50, environment as in kenv_ok: the device never decides to reconnect, at every instant the last
+Example C05_timeout_range_values : KA_MIN = 5 /\ KA_WD_MAX = 58.
+Proof. exact (conj KA_MIN_val KA_WD_MAX_val). Qed.
+
+(* registered, KA_MIN = 5 <= T <= KA_WD_MAX = 58, environment as in kenv_ok: the device never decides to reconnect, at every instant the last
    transmission is at most T seconds old (a frame in every activity-timeout window), the last response at most T+2 seconds,
    and a watchdog tick at any instant before the next timer1 tick does nothing (no restart, no soft reconnect). *)
 Theorem C05_keepalive : forall T u0 ls0 l,
-  10 <= T <= 50 -> 0 <= ls0 <= u0 -> u0 < 4294967296 -> u0 - ls0 <= T - 3 ->
+  KA_MIN <= T <= KA_WD_MAX -> 0 <= ls0 <= u0 -> u0 < 4294967296 -> u0 - ls0 <= T - 3 ->
   kenv_run T (kinit u0 ls0) l = true ->
   let s := krun T (kinit u0 ls0) l in
   k_bad s = false /\ k_cur s - k_ls s <= T /\ k_cur s - k_lr s <= T + 2 /\
   (forall up nw, k_lr s <= up -> up <= k_lt s + 2 -> up < 4294967296 -> wd_decide up (k_lr s) T nw = WD_none).
 Proof. exact C05_keepalive_thm. Qed.
 Print Assumptions C05_keepalive.
+
+(* every other timeout with a ping window (the protocol field is one byte: 5..255 is covered): everything but the watchdog clause *)
+Theorem C05_keepalive_wide : forall T u0 ls0 l,
+  KA_MIN <= T <= 4294966000 -> 0 <= ls0 <= u0 -> u0 < 4294967296 -> u0 - ls0 <= T - 3 ->
+  kenv_run T (kinit u0 ls0) l = true ->
+  let s := krun T (kinit u0 ls0) l in
+  k_bad s = false /\ k_cur s - k_ls s <= T /\ k_cur s - k_lr s <= T + 2.
+Proof. exact C05_keepalive_wide_thm. Qed.
+Print Assumptions C05_keepalive_wide.
+
+(* the ping rule for a granted timeout tmo >= 5 while the silence is not longer than tmo: ping iff an idle time is in [tmo-5, tmo] *)
+Theorem C05_ping_window : forall up ls lr tmo,
+  KA_MIN <= tmo <= 4294966000 -> 0 <= ls <= up -> 0 <= lr <= up -> up < 4294967296 -> up - lr <= tmo ->
+  t1_decide up ls lr tmo =
+  if ((tmo - PING_WINDOW_MINUS <=? up - ls) && (up - ls <=? tmo)) || ((tmo - PING_WINDOW_MINUS <=? up - lr) && (up - lr <=? tmo))
+  then T1_ping else T1_none.
+Proof. exact t1_decide_spec. Qed.
+Print Assumptions C05_ping_window.
+(* timeout 0: the keep-alive is off (no ping, no activity-timeout reconnect) *)
+Theorem C05_timeout_zero_disables : forall up ls lr tmo, tmo <= 0 -> t1_decide up ls lr tmo = T1_none.
+Proof. exact t1_decide_zero. Qed.
+Print Assumptions C05_timeout_zero_disables.
+(* 0 < timeout < 5: tmo - 5 wraps as unsigned, the device NEVER pings; it reconnects exactly when tmo + 10 s passed without a call *)
+Theorem C05_timeout_below_window_never_pings : forall up ls lr tmo,
+  0 < tmo < PING_WINDOW_MINUS -> 0 <= ls <= up -> 0 <= lr <= up -> up < 4294967296 ->
+  t1_decide up ls lr tmo <> T1_ping /\ (t1_decide up ls lr tmo = T1_reconnect <-> tmo + PING_RECONNECT_PLUS <= up - lr).
+Proof. exact t1_decide_small. Qed.
+Print Assumptions C05_timeout_below_window_never_pings.
 
 Example C05_keepalive_example : kenv_run 10 (kinit 100 100) (ka_trace 40 101) = true /\
   k_ls (krun 10 (kinit 100 100) (ka_trace 40 101)) = 140 /\ k_bad (krun 10 (kinit 100 100) (ka_trace 40 101)) = false.
@@ -88,55 +126,149 @@ Proof. reflexivity. Qed.
 (* ---------- END TO END on the full automaton (fuel-free semantics, C04/Timing.v) ----------
    s0: any reachable state (lateness script bounded by J); tau: the true time at which the last call was received
    (last_response = uptime second of tau); s0 --evs--> s1: ANY run (local traffic, callbacks, Wi-Fi events, send results,
-   timer phases) in which no call is received (nresp unchanged); no wrap of the 32-bit microsecond counter up to now s1
-   (C19 covers the wrap); the model has no configuration mode / firmware update. *)
-(* registered with granted timeout T (0 < T), no refusal stop pending: once the run has reached tau + (T+10+1) s + J the device
+   timer phases) in which no call is received (nresp unchanged).  The 32-bit microsecond counter may wrap any number of times:
+   W = wraps s0 tau (now s1) is the number of wraps between tau and the end of the run, each costs one microsecond (uptime.c
+   counts a cycle as 0xffffffff us); the uptime in seconds fits 32 bits.  No configuration mode / firmware update in the model. *)
+(* the 64-bit time of uptime.c at model time t, and its seconds; the device's uptime_sec() is Upt (now) while it fits 32 bits *)
+Theorem C05_uptime_seconds : forall J s, 0 <= J -> TR J s -> nowrap s -> uptime s = Upt s (now s).
+Proof. intros J s _ R NW. exact (uptime_nowrap s NW (r_now J s R)). Qed.
+Print Assumptions C05_uptime_seconds.
+(* d seconds of uptime take less than d s of true time plus one microsecond per counter wrap in between *)
+Theorem C05_elapsed_bound : forall s tau x d, 0 <= d -> Upt s x - Upt s tau < d ->
+  x - ((boot s + x) / 4294967296 - (boot s + tau) / 4294967296) < tau + d * 1000000.
+Proof. exact elapsed_bound. Qed.
+Print Assumptions C05_elapsed_bound.
+
+(* registered with granted timeout T (0 < T), no refusal stop pending: once the run has reached tau + (T+10+1) s + J + W us the device
    has called espconn_disconnect AND wifi_station_connect (the Wi-Fi/TCP connect sequence) at one instant t before that bound *)
 Theorem C05_silent_server_reconnects : forall J cs cc s0 evs s1 tau, 0 <= J ->
   rreachable cs cc J s0 -> RRun s0 evs s1 -> nresp s1 = nresp s0 ->
-  cycles0 s0 = 0 -> 0 <= boot s0 -> boot s0 + now s1 < 4294967296 -> lastresp s0 = Upt s0 tau ->
+  0 <= cycles0 s0 -> 0 <= boot s0 -> Upt s0 (now s1) < 4294967296 -> lastresp s0 = Upt s0 tau ->
   is_registered s0 = true -> armed (t_stop s0) = false -> 0 < actto s0 < 4294966000 ->
-  tau + (actto s0 + PING_RECONNECT_PLUS) * 1000000 + T1_US + J <= now s1 ->
+  tau + (actto s0 + PING_RECONNECT_PLUS) * 1000000 + T1_US + J + wraps s0 tau (now s1) <= now s1 ->
   exists t, now s0 <= t /\ t <= now s1 /\ disc_at t s1 /\ wifi_at t s1 /\
-            t < tau + (actto s0 + PING_RECONNECT_PLUS) * 1000000 + T1_US + J.
+            t < tau + (actto s0 + PING_RECONNECT_PLUS) * 1000000 + T1_US + J + wraps s0 tau (now s1).
 Proof. intros J cs cc s0 evs s1 tau HJ. exact (silent_reconnect_e2e_thm J HJ cs cc s0 evs s1 tau C05_sites_guarded). Qed.
 Print Assumptions C05_silent_server_reconnects.
 
-(* any state (registered or not, whatever T): once the run has reached tau + (60+1+1) s + J the device has called
+(* any state (registered or not, whatever T): once the run has reached tau + (60+1+1) s + J + W us the device has called
    supla_system_restart at an instant t before that bound *)
 Theorem C05_silent_server_restarts : forall J cs cc s0 evs s1 tau, 0 <= J ->
   rreachable cs cc J s0 -> RRun s0 evs s1 -> nresp s1 = nresp s0 ->
-  cycles0 s0 = 0 -> 0 <= boot s0 -> boot s0 + now s1 < 4294967296 -> lastresp s0 = Upt s0 tau ->
-  halted s0 = false -> tau + (WATCHDOG_TIMEOUT_S + 1) * 1000000 + WD_US + J <= now s1 ->
-  halted s1 = true /\ exists t, now s0 <= t /\ t <= now s1 /\ restart_at t s1 /\ t < tau + (WATCHDOG_TIMEOUT_S + 1) * 1000000 + WD_US + J.
+  0 <= cycles0 s0 -> 0 <= boot s0 -> Upt s0 (now s1) < 4294967296 -> lastresp s0 = Upt s0 tau ->
+  halted s0 = false -> tau + (WATCHDOG_TIMEOUT_S + 1) * 1000000 + WD_US + J + wraps s0 tau (now s1) <= now s1 ->
+  halted s1 = true /\ exists t, now s0 <= t /\ t <= now s1 /\ restart_at t s1 /\
+                               t < tau + (WATCHDOG_TIMEOUT_S + 1) * 1000000 + WD_US + J + wraps s0 tau (now s1).
 Proof. intros J cs cc s0 evs s1 tau HJ. exact (silent_restart_e2e_thm J HJ cs cc s0 evs s1 tau C05_sites_guarded). Qed.
 Print Assumptions C05_silent_server_restarts.
-(* with the generated constants the two bounds are tau + (T+11) s + J and tau + 62 s + J *)
+(* with the generated constants the two bounds are tau + (T+11) s + J (+W us) and tau + 62 s + J (+W us) *)
 Example C05_bound_values : PING_RECONNECT_PLUS * 1000000 + T1_US = 11000000 /\ (WATCHDOG_TIMEOUT_S + 1) * 1000000 + WD_US = 62000000.
 Proof. split; reflexivity. Qed.
 
-(* the hypotheses are satisfiable: the run of C05_bounds_tight (T = 10, tau = 1000001 us, J = 0) *)
-Example C05_end_to_end_example :
-  rreachable true false 0 e2e_s0 /\ RRun e2e_s0 [Adv 25000000] e2e_s1 /\ nresp e2e_s1 = nresp e2e_s0 /\
-  cycles0 e2e_s0 = 0 /\ 0 <= boot e2e_s0 /\ boot e2e_s0 + now e2e_s1 < 4294967296 /\ lastresp e2e_s0 = Upt e2e_s0 1000001 /\
-  is_registered e2e_s0 = true /\ armed (t_stop e2e_s0) = false /\ actto e2e_s0 = 10 /\ halted e2e_s0 = false /\
-  1000001 + (actto e2e_s0 + PING_RECONNECT_PLUS) * 1000000 + T1_US + 0 <= now e2e_s1.
+(* the hypotheses are satisfiable: the run of C05_bounds_tight (T = 10, tau = 1000001 us, J = 0), without a wrap ... *)
+Example C05_end_to_end_example : let s0 := e2e_s0 999999 0 in let s1 := e2e_s1 999999 0 25000000 in
+  rreachable true false 0 s0 /\ RRun s0 [Adv 25000000] s1 /\ nresp s1 = nresp s0 /\
+  0 <= cycles0 s0 /\ 0 <= boot s0 /\ Upt s0 (now s1) < 4294967296 /\ lastresp s0 = Upt s0 1000001 /\
+  is_registered s0 = true /\ armed (t_stop s0) = false /\ actto s0 = 10 /\ halted s0 = false /\ wraps s0 1000001 (now s1) = 0 /\
+  1000001 + (actto s0 + PING_RECONNECT_PLUS) * 1000000 + T1_US + 0 + wraps s0 1000001 (now s1) <= now s1.
 Proof. exact e2e_example. Qed.
+(* ... and on an aged device (3 earlier wraps) whose counter wraps 10 s after boot, inside the silence: W = 1 *)
+Example C05_end_to_end_wrap_example : let s0 := e2e_s0 (4294967296 - 10000000) 3 in let s1 := e2e_s1 (4294967296 - 10000000) 3 25000000 in
+  rreachable true false 0 s0 /\ RRun s0 [Adv 25000000] s1 /\ nresp s1 = nresp s0 /\
+  0 <= cycles0 s0 /\ 0 <= boot s0 /\ Upt s0 (now s1) < 4294967296 /\ lastresp s0 = Upt s0 1000001 /\
+  is_registered s0 = true /\ armed (t_stop s0) = false /\ actto s0 = 10 /\ halted s0 = false /\ wraps s0 1000001 (now s1) = 1 /\
+  1000001 + (actto s0 + PING_RECONNECT_PLUS) * 1000000 + T1_US + 0 + wraps s0 1000001 (now s1) <= now s1.
+Proof. exact e2e_wrap_example. Qed.
 
 (* ---------- keep-alive on the automaton (simulation, C05/Sim.v) ----------
-   The automaton runs the abstract semantics in lockstep as ghost state (kabs: abstract state, kenv: conjunction of kenv_ok over
-   the abstract events of the current episode).  In every reachable registered state whose episode satisfied the environment
-   conditions and 10 <= T <= 50: the abstract invariant holds of the REAL last_sent / last_response, no reconnect was decided in
-   the episode, the next timer1 tick (if it too satisfies kenv_ok) does not reconnect and a watchdog tick before it does nothing. *)
-Theorem C05_keepalive_automaton : forall cs cc J s, rreachable cs cc J s ->
-  is_registered s = true -> kenv s = true -> 10 <= actto s <= 50 ->
-  let T := actto s in let k := kabs s in
+   The automaton runs the abstract semantics in lockstep as ghost state: kabs (abstract state), ktmo (its timeout) and kenv, the
+   conjunction over the current episode of the EXTERNAL conditions only: *)
+Theorem C05_kenv_is_external : forall s e,
+  kenv (k_reset s) = (uptime s - lastsent s <=? actto s - 3) /\                  (* H_fresh when an episode starts *)
+  kenv (k_event e s) = kenv s && kext_ok (ktmo s) (kabs s) e.                     (* H_link, H_prompt, H_slot per event *)
+Proof. intros s e. exact (conj (kenv_reset s) (kenv_event e s)). Qed.
+Print Assumptions C05_kenv_is_external.
+(* lockstep: for EVERY history of the automaton (lateness J < 1 s) the ghost state simulates the device: same timeout; and while
+   registered with 5 <= T and 32-bit uptime seconds, the abstract clock is the device's: last tick <= last event <= current
+   second <= last tick + 2 (time monotone, a timer1 tick at least every other second: what kder_ok assumed) *)
+Theorem C05_lockstep : forall J cs cc s, 0 <= J < 1000000 -> rreachable cs cc J s -> KSim J true s.
+Proof. intros J cs cc s HJ. exact (ksim_reachable J HJ cs cc s C05_sites_guarded). Qed.
+Print Assumptions C05_lockstep.
+(* In every reachable registered state with 32-bit uptime seconds, KA_MIN = 5 <= T = granted timeout, whose episode met the external
+   conditions: the invariant holds of the REAL last_sent / last_response, no reconnect was decided, seen from the CURRENT uptime
+   second both idle times are at most T + 2, the derived conditions hold for the next timer1 tick, which (if it too meets the
+   external conditions) does not reconnect, and for T <= KA_WD_MAX = 58 a watchdog tick now neither restarts nor reconnects. *)
+Theorem C05_keepalive_automaton : forall J cs cc s, 0 <= J < 1000000 -> rreachable cs cc J s ->
+  is_registered s = true -> nowrap s -> KA_MIN <= actto s <= 4294966000 -> kenv s = true ->
+  let T := actto s in let k := kabs s in let up := Upt s (now s) in
   KInv T k /\ k_ls k = lastsent s /\ k_lr k = lastresp s /\ k_bad k = false /\
-  k_cur k - lastsent s <= T /\ k_cur k - lastresp s <= T + 2 /\
-  (forall slot, kenv_ok T k (Tick (uptime s) slot) = true -> t1_decide (uptime s) (lastsent s) (lastresp s) T <> T1_reconnect) /\
-  (forall up nw, lastresp s <= up -> up <= k_lt k + 2 -> up < 4294967296 -> wd_decide up (lastresp s) T nw = WD_none).
-Proof. intros cs cc J s. exact (keepalive_automaton_thm cs cc J s C05_sites_guarded). Qed.
+  uptime s = up /\ k_lt k <= k_cur k /\ k_cur k <= up /\ up <= k_lt k + 2 /\
+  up - lastsent s <= T + 2 /\ up - lastresp s <= T + 2 /\
+  (forall slot, kder_ok k (Tick (uptime s) slot) = true) /\
+  (forall slot, kext_ok T k (Tick (uptime s) slot) = true -> t1_decide (uptime s) (lastsent s) (lastresp s) T <> T1_reconnect) /\
+  (T <= KA_WD_MAX -> forall nw, wd_decide (uptime s) (lastresp s) T nw = WD_none).
+Proof. intros J cs cc s HJ. exact (keepalive_automaton_thm J HJ cs cc s C05_sites_guarded). Qed.
 Print Assumptions C05_keepalive_automaton.
+(* the hypotheses hold on long concrete histories: 120 s, 23 pings answered after 50 ms each; and the same on an aged device
+   (7 earlier wraps) whose microsecond counter wraps 30 s after boot *)
+Example C05_keepalive_history_example : let s := ka_hist 999999 0 120000000 in
+  rreachable true false 0 s /\ is_registered s = true /\ nowrap s /\ actto s = 10 /\ kenv s = true /\ nresp s = 24 /\ now s = 121000001.
+Proof. exact ka_history_example. Qed.
+Example C05_keepalive_history_wrap_example : let s := ka_hist (4294967296 - 30000000) 7 120000000 in
+  rreachable true false 0 s /\ is_registered s = true /\ nowrap s /\ actto s = 10 /\ kenv s = true /\ nresp s = 24 /\
+  (boot s + now s) / 4294967296 = 1 /\ uptime s = 34450.
+Proof. exact ka_history_wrap_example. Qed.
+
+(* ---------- activity-timeout negotiation ----------
+   SET_ACTIVITY_TIMEOUT_RESULT {activity_timeout, min, max}: the device stores the first byte as it is (no clamp, min / max not
+   read) and the register result's activity_timeout byte likewise; a new keep-alive episode starts with that value. *)
+Theorem C05_sat_result_sets_timeout : forall f s, let v := nthz (drop OFF_DATA f) OFF_SAT_RESULT_TIMEOUT in
+  le32 f OFF_CALL_ID = SRV_SET_ACTIVITY_TIMEOUT_RESULT -> le32 f OFF_DATA_SIZE = SZ_SET_ACTIVITY_TIMEOUT_RESULT ->
+  let s' := handler f s in
+  actto s' = v /\ ktmo s' = v /\ registered s' = registered s /\ srpc s' = srpc s /\ lastsent s' = lastsent s /\ lastresp s' = uptime s /\
+  uptime s' = uptime s /\ t_timer1 s' = t_timer1 s /\ outs s' = outs s /\
+  kabs s' = kinit (uptime s) (lastsent s) /\ kenv s' = (uptime s - lastsent s <=? v - 3).
+Proof. exact sat_result_sets_timeout_thm. Qed.
+Print Assumptions C05_sat_result_sets_timeout.
+Theorem C05_register_result_sets_timeout : forall tmo s, let s' := on_register_result RESULTCODE_TRUE tmo s in
+  actto s' = tmo /\ ktmo s' = tmo /\ registered s' = 1 /\ lastsent s' = lastsent s /\ lastresp s' = lastresp s /\
+  kabs s' = kinit (uptime s) (lastsent s) /\ kenv s' = (uptime s - lastsent s <=? tmo - 3).
+Proof. exact register_result_sets_timeout_thm. Qed.
+Print Assumptions C05_register_result_sets_timeout.
+(* after the result with ANY value v, handled in a reachable registered state, the keep-alive runs with v: lockstep restarted with
+   tmo = v; for 5 <= v and something sent in the last v-3 s the invariant holds for T = v and the next decisions of timer1
+   (C05_timer1_is_decide: it decides with actto = v) are the window rule of v.  Every later state of the history is covered by
+   C05_keepalive_automaton with T = actto s = v.  v = 0 / 0 < v < 5: C05_timeout_zero_disables / C05_timeout_below_window_never_pings. *)
+Theorem C05_timeout_negotiated : forall J cs cc s f, 0 <= J < 1000000 -> let v := nthz (drop OFF_DATA f) OFF_SAT_RESULT_TIMEOUT in
+  rreachable cs cc J s -> is_registered s = true -> nowrap s ->
+  le32 f OFF_CALL_ID = SRV_SET_ACTIVITY_TIMEOUT_RESULT -> le32 f OFF_DATA_SIZE = SZ_SET_ACTIVITY_TIMEOUT_RESULT ->
+  let s' := handler f s in
+  KSim J true s' /\ actto s' = v /\ ktmo s' = v /\ is_registered s' = true /\
+  (KA_MIN <= v <= 4294966000 -> uptime s - lastsent s <= v - 3 ->
+     kenv s' = true /\ KInv v (kabs s') /\ k_ls (kabs s') = lastsent s' /\ k_lr (kabs s') = lastresp s' /\
+     forall up, lastresp s' <= up -> up < 4294967296 -> up - lastresp s' <= v ->
+       t1_decide up (lastsent s') (lastresp s') v =
+       if ((v - PING_WINDOW_MINUS <=? up - lastsent s') && (up - lastsent s' <=? v)) ||
+          ((v - PING_WINDOW_MINUS <=? up - lastresp s') && (up - lastresp s' <=? v)) then T1_ping else T1_none).
+Proof. intros J cs cc s f HJ. exact (timeout_negotiated_thm J HJ cs cc s f C05_sites_guarded). Qed.
+Print Assumptions C05_timeout_negotiated.
+(* registered with 30, the device asks for 10, the server grants 25 (min = 77, max = 3 ignored): 2 min later all hypotheses hold,
+   5 pings answered; v = 5: a ping every second; v = 3: no ping, the healthy connection is dropped 13 s after the result *)
+Example C05_negotiation_example : let s := neg_hist 30 25 120000000 in
+  rreachable true false 0 s /\ is_registered s = true /\ nowrap s /\ actto s = 25 /\ ktmo s = 25 /\ kenv s = true /\ nresp s = 7.
+Proof. exact negotiation_example. Qed.
+Example C05_negotiation_min_example : let s := neg_hist 30 5 60000000 in
+  rreachable true false 0 s /\ is_registered s = true /\ actto s = 5 /\ kenv s = true /\ nresp s = 62.
+Proof. exact negotiation_min_example. Qed.
+Example C05_negotiation_below_window_example : let s := neg_hist 30 3 20000000 in
+  rreachable true false 0 s /\ nresp s = 2 /\ disc_at 15000000 s.
+Proof. exact negotiation_small_example. Qed.
+(* REFUTED beyond KA_WD_MAX: with 120 granted and a server that answers every ping after 50 ms (kenv = true) the first ping is due
+   after 115 idle seconds, but the watchdog restarts the device after 61 s without a received call (restart at 63.0 s) *)
+Theorem C05_watchdog_large_timeout_refuted : let s := neg_hist 30 120 70000000 in
+  rreachable true false 0 s /\ actto s = 120 /\ kenv s = true /\ nresp s = 2 /\ halted s = true /\ exists t, t <= 63000000 /\ restart_at t s.
+Proof. exact watchdog_large_timeout_refuted. Qed.
+Print Assumptions C05_watchdog_large_timeout_refuted.
 
 (* both bounds are attained up to 2 us: T = 10 -> closed and reconnecting 20.999999 s after the last message;
    T = 120 -> restart 61.999999 s after the last message *)
